@@ -39,6 +39,25 @@ claim("C10", "E1-jobsim",
  "Seeded search over mixes of normal (marker closures), high (to_wait) and urgent (delete_now) controls from 1-3 concurrent sender tasks, as atomic bursts and trickles, with and without an armed grace timer, under adversarial wake-up orders; oracles on marker execution order: per-sender FIFO, a resolved ticket implies every earlier same-sender control ran, nothing normal starts once delete_now is enqueued, to_wait overtakes a start sent in the same burst, nothing normal runs while a grace timer is armed.",
  NOTE_E1, "DESIGN.md 4 C10")
 
+claim("C01", "E2-wxsim",
+ "Seeded search over event streams from 1-4 concurrent producers (synthetic sends of every priority, empty events, signal and keyboard-EOF events built by the sources' own constructors, watcher-callback events through the real fs handler closure) x scripted filter verdicts x handler durations (sync/async) x event-queue sizes 1..4096 x throttle values x schedules; conservation oracle over the recorded history: every accepted event that passes (or is urgent or empty) is in exactly one batch, rejected/errored ones in none, no empty batch, filter called at most once and never for urgent/empty events, events refused by a full queue appear nowhere.",
+ NOTE_E2, "DESIGN.md 4 C01")
+claim("C02", "E2-wxsim",
+ "Same engine with dedicated arrival patterns (single event, bursts inside a window, events exactly at / 1 ms around the window end, continuous accepted and rejected streams, urgent with empty and non-empty set, throttle 0, throttle changed mid-window) under a discrete-event clock, so all bounds are exact: delivery >= first receive + throttle, every passing event filtered between two deliveries is in the later batch, an urgent event flushes at the instant it is accepted (or the instant the worker becomes free), delivery <= first receive + throttle (no starvation).",
+ NOTE_E2 + " Hook H1 makes throttle_collect read tokio's pausable clock.", "DESIGN.md 4 C02")
+claim("C05", "E3-clisim",
+ "The real CLI argument parser + normalisation and the real make_config action handler drive the real runtime and supervisor against simulated child processes; seeded search over argv (four on-busy modes, -r/--signal shorthands, --postpone, --stop-signal, --stop-timeout, --delay-run, --debounce) x child behaviours x change bursts placed before start, mid-run, at the instant of exit, during the grace period and back to back x schedules; oracles: runs never overlap, start-up run iff not postponed, the last change is followed by a run that started after it (restart/queue; other modes when idle), per-mode rules for changes delivered in a stable running period, global run/signal/kill counts.",
+ "Trusts SimChild, the H4 signal injection, the replicated three start-up lines of run_watchexec(), the vendored tokio and single-thread interleaving granularity. Mode-timing rules are not asserted for runs with --delay-run (decisions queue behind one another) nor for batches that tie with a child transition. Sampling, not proof.", "DESIGN.md 4 C05")
+claim("C08", "E2-wxsim + E3-clisim",
+ "Seeded search over 0-3 jobs in every state at the moment of the quit (never started, running, finished, mid graceful stop/restart with an armed timer, deleted, queued time-consuming controls, handle clones held elsewhere, controls still arriving) x child reaction x process-group members x quit manner and grace x quit instant (incl. the action that created the job) x schedules; plus the CLI path (SIGINT / SIGTERM through the signal source into the real CLI handler). Oracles: main ends at the instant the handler returns (abort) or within remaining armed grace + queued work + quit grace + 2 ms (graceful); after runtime shutdown every spawned process is dead; group members are dead after a graceful quit of a grouped command; main returns Ok; the CLI sends the configured stop signal and force-kills at the stop timeout.",
+ NOTE_E2 + " Process-group behaviour is modelled in the stub; only the presence of the KillOnDrop / ProcessGroup / ProcessSession wrappers on the spawned command is observed from the real code.", "DESIGN.md 4 C08")
+claim("C13", "E2-wxsim",
+ "Every sequence of <= 2 (thorough: <= 3) run-time configuration changes over 27 path sets (3-path universe x recursive/non-recursive) + 2 watcher kinds + keyboard/throttle/handler replacements from 3 initial configurations x {back-to-back, spaced}, then seeded-random longer sequences issued from an independent task, from inside the action handler, from inside the error handler and from a watcher call site (i.e. in the middle of the apply, at each individual watch/unwatch), with persistent and one-shot watch/unwatch failures, creation failures and an error queue of size 1; oracle at quiescence: registered set of the live SimWatcher == configured set (modes included), live watcher kind == configured kind, empty set => no live watcher, one runtime error per failed attempt, handler generations (invocation in progress keeps the old handler).",
+ NOTE_E2 + " Hook H6 seeds the iteration order of the worker's registered-path set.", "DESIGN.md 4 C13")
+claim("C15", "E2-wxsim",
+ "C01 and C13 workloads with fault sequences: filter errors on chosen events, watch/unwatch failures, watcher-callback errors, event-queue overflow under a stalled handler, error bursts larger than the error queue; error-handler behaviours ignore / elevate k-th / critical k-th / replace itself / reconfigure. Oracles: exactly one handler call per filter or watch/unwatch error, at most one per callback-path error, conservation (C01) and convergence (C13) still hold for everything else, a probe event sent after the last fault is delivered within throttle + handler time, main ends with exactly the escalated critical error at the instant of escalation and no handler call follows.",
+ NOTE_E2, "DESIGN.md 4 C15")
+
 NA = {
  "C03":"pure function of (directory tree, ignore files, probe path): no schedule, clock, fault or interleaving in the statement; file loading is one sequential read. Not a simulation target.",
  "C11":"pure function of (patterns, event): no schedule, clock, fault or interleaving. Not a simulation target.",
@@ -84,6 +103,5 @@ def gen(active, pending):
 
 if __name__ == "__main__":
     import sys
-    active = ["C04","C06","C07","C09","C10"]
-    pending = {p: "check under construction in this round (engine E2/E3 not yet committed); will be claimed when its check exists" for p in ["C01","C02","C05","C08","C13","C15"]}
-    gen(active, pending)
+    active = ["C01","C02","C04","C05","C06","C07","C08","C09","C10","C13","C15"]
+    gen(active, {})
